@@ -421,6 +421,11 @@ func (r *reader) initNodes(tr io.Reader) error {
 							}
 							found = true
 							ent.NumLink = readNumLink(b)
+							// The attributes of this entry replace the ones written before
+							// (writeAttr doesn't store zero values so it can't reset them).
+							if err := clearAttr(b); err != nil {
+								return fmt.Errorf("failed to reset attr of %d(%q): %w", id, ent.Name, err)
+							}
 						}
 					}
 					if !found {
@@ -1040,8 +1045,11 @@ func setChild(md map[uint32]*metadataEntry, pb *bolt.Bucket, pid uint32, base st
 	if md[pid].children == nil {
 		md[pid].children = make(map[string]childEntry)
 	}
+	prev, linked := md[pid].children[base]
 	md[pid].children[base] = childEntry{base, id}
-	if isDir {
+	if isDir && !(linked && prev.id == id) {
+		// NOTE: a directory that is listed more than once in the TOC, or listed
+		// after one of its children, is already linked to the parent: count it once.
 		numLink, _ := binary.Varint(pb.Get(bucketKeyNumLink))
 		if err := putInt(pb, bucketKeyNumLink, numLink+1); err != nil {
 			return fmt.Errorf("cannot add numlink for children: %w", err)
